@@ -342,7 +342,11 @@ func canonAuto(d string) string {
 
 func trunc(s string, n int) string {
 	if len(s) > n {
-		return s[:n] + "..."
+		s = s[:n] + "..."
+	}
+	// one oracle message = one line of oracle.txt
+	if strings.ContainsAny(s, "\r\n\t") {
+		s = strings.NewReplacer("\r", "\\r", "\n", "\\n", "\t", "\\t").Replace(s)
 	}
 	return s
 }
